@@ -35,13 +35,12 @@ PcClauses(P, calls, obs, k, pc) ==
         St    == StateBefore(P, calls, k)
         ow    == Owed(P, St.M, c)
         f     == obs[k]
-        need  == { "-l" \o P.objs[j].nm : j \in { m \in Mentioned(P, c) \ ow.W : P.objs[m].k # "ustatic" } }
-                 \cup { Token(P, x) : x \in Provided(obs, k) }
+        need  == { Token(P, x) : x \in ow.pubL \cup Provided(obs, k) }
         pubn  == UNION { ReqNames(obs[j].req) : j \in Closure(obs, k, FALSE) }
         alln  == UNION { ReqNames(obs[j].req) \cup ReqNames(obs[j].reqp) : j \in Closure(obs, k, TRUE) }
         extl(ns) == UNION { Rng(e.la) : e \in UNION { ExtOfName(P, n) : n \in ns } }
         extc(ns) == UNION { Rng(e.ca) : e \in UNION { ExtOfName(P, n) : n \in ns } }
-        sneed == { Token(P, x) : x \in ProvidedStatic(obs, k) }
+        sneed == { Token(P, x) : x \in ow.privL \cup ProvidedStatic(obs, k) }
         inc   == { IF c.subdirs[q] = "." THEN "-I" \o P.o.prefix \o "/" \o P.o.includedir
                    ELSE "-I" \o P.o.prefix \o "/" \o P.o.includedir \o "/" \o c.subdirs[q] : q \in 1..Len(c.subdirs) }
         cneed == inc \cup ow.C \cup Rng(c.xcf) \cup extc(alln)
